@@ -13,7 +13,7 @@ ASSUMPTIONS = [
 ]
 OUTSIDE = ['more than 8 (quick) / 16 (thorough) data points per direction (the property goes to 40)', 'end-to-end runs with symbolic chord-length parameters (nested square roots feeding span search)',
            'minimality beyond the normal equations (N^T N is positive definite)']
-BOUNDS = {'quick': 'params: 3-4 points 2-D/3-D, both parametrisations, surfaces 2x3/3x3; interpolate: symbolic parameters n=3,4 p<=3, rational families n<=8 p<=3, surfaces to 4x5; approximate: n<=8; parameters of grids with a shrunk (symbolic factor) row / column / whole grid',
+BOUNDS = {'quick': 'params: 3-4 points 2-D/3-D, both parametrisations, surfaces 2x3/3x3; interpolate: symbolic parameters n=3,4 p<=3, rational families n<=8 p<=3, surfaces to 4x5; approximate: n<=8; parameters of grids with a shrunk (symbolic factor) row / column / whole grid; square grids with the same parameters in both directions and different degrees',
           'thorough': 'rational families n<=12, p<=5, surfaces to 6x5'}
 
 
